@@ -78,7 +78,7 @@ fn some_valid_tokens(rng: &mut Rng) -> Vec<(K, String)> {
     }
     if rng.chance(0.3) {
         // a generated grammar model
-        let (_, cfg, force) = crate::gen::grammar_for_case(rng, u64::MAX);
+        let (_, cfg, force) = crate::gen::small_grammar(rng);
         let mut m = crate::model::model_from_cfg(&cfg, &force);
         crate::model::assign_random_shapes(&mut m, rng, 0.5);
         if let Some(t) = gtext::tokens_of(&m.render()) {
@@ -190,7 +190,7 @@ pub fn input_for(prop: &str, tier: Tier, seed: u64, idx: u64, sub: u64) -> (Stri
             }
             if rng.chance(0.2) {
                 // several simultaneous violations of one kind
-                let (_, cfg, force) = crate::gen::grammar_for_case(&mut rng, u64::MAX);
+                let (_, cfg, force) = crate::gen::small_grammar(&mut rng);
                 let mut m = crate::model::model_from_cfg(&cfg, &force);
                 crate::model::assign_random_shapes(&mut m, &mut rng, 0.5);
                 if let Ok(mut items) = rkiki::reference_ast(&m.render()) {
@@ -199,7 +199,7 @@ pub fn input_for(prop: &str, tier: Tier, seed: u64, idx: u64, sub: u64) -> (Stri
                 }
             }
             // a valid model with 0-3 injected violations
-            let (_, cfg, force) = crate::gen::grammar_for_case(&mut rng, u64::MAX);
+            let (_, cfg, force) = crate::gen::small_grammar(&mut rng);
             let mut m = crate::model::model_from_cfg(&cfg, &force);
             crate::model::assign_random_shapes(&mut m, &mut rng, 0.5);
             m.start_pos = rng.below(m.nts.len() + 1);
